@@ -424,6 +424,7 @@ class FunctionParser(BaseParser):
                     else unprovided,
                     global_vars=global_vars,
                     forward_refs=self.forward_refs,
+                    force_clear_refs=self.force_clear_refs,
                     options=self.options,
                     positional_only=param.kind == param.POSITIONAL_ONLY,
                     bound=self.bound,
